@@ -54,7 +54,8 @@ REQUIRED_PROBES = {"quick": ["lookup_served_from_cache", "definition_after_first
                              "reparse_of_serialisation", "interleaved_clients", "until_rule", "count_rule",
                              "rdate_observance", "two_eras", "no_tzname", "slash_prefixed_id", "parsed_with_multiple",
                              "utc_instant_family", "convert_with_process_wide_provider", "tzname_with_language",
-                             "converted_again_after_edit", "hundreds_of_zones_cached"]}
+                             "converted_again_after_edit", "hundreds_of_zones_cached",
+                             "same_text_parsed_again_after_rule_edit"]}
 REQUIRED_PROBES["thorough"] = REQUIRED_PROBES["quick"]
 
 # "sim/a" / "SIM/B" / "SÏM/Ü": other ids than "Sim/A" / "Sim/B" / "Sïm/Ü" (ids are compared as they are written)
@@ -141,7 +142,10 @@ def generate(rng, cfg):
             if rng.random() < 0.3:
                 # the component is converted, an observance is renamed in place, and it is converted again
                 step["edit"] = {"ob": rng.randrange(len(defs[step["def"]]["def"]["obs"])),
-                                "name": "E" + "".join(rng.choice("ABCDEFGHKLMN") for _ in range(3))}
+                                "name": "E" + "".join(rng.choice("ABCDEFGHKLMN") for _ in range(3)),
+                                # "rule": the rule of that observance is edited in place instead, and the text is
+                                # parsed and converted once more: the new component follows its text, not the edit
+                                "kind": rng.choice(["name", "name", "rule"])}
             trace.append([c, "convert", step])
         elif op == "provider_switch":
             trace.append(["env", "provider_switch", {"p": rng.choice(["zoneinfo", "pytz"])}])
@@ -480,12 +484,22 @@ def execute(run, res):
                     # edit below the VTIMEZONE (the component itself is not told), then convert the same object again
                     import copy as _copy
                     from icalendar.prop import vText as _vText
-                    comp.subcomponents[a["edit"]["ob"]]["TZNAME"] = _vText(a["edit"]["name"])
-                    d = _copy.deepcopy(d)
-                    d["obs"][a["edit"]["ob"]]["name"] = a["edit"]["name"]
-                    d["obs"][a["edit"]["ob"]].pop("lang", None)
-                    tz = comp.to_tz(P_, lookup_tzid=False)
-                    res.probe("converted_again_after_edit")
+                    sub = comp.subcomponents[a["edit"]["ob"]]
+                    rule = sub.get("RRULE") if a["edit"].get("kind") == "rule" else None
+                    if rule is not None and isinstance(rule.get("BYMONTH"), list) and rule["BYMONTH"]:
+                        rule["BYMONTH"][0] = rule["BYMONTH"][0] % 12 + 1      # in place: the list object stays
+                        if isinstance(rule.get("BYDAY"), list):
+                            rule["BYDAY"].append("MO")
+                        comp = Timezone.from_ical(zonegen.vtimezone_text(d))
+                        tz = comp.to_tz(P_, lookup_tzid=False)
+                        res.probe("same_text_parsed_again_after_rule_edit")
+                    else:
+                        sub["TZNAME"] = _vText(a["edit"]["name"])
+                        d = _copy.deepcopy(d)
+                        d["obs"][a["edit"]["ob"]]["name"] = a["edit"]["name"]
+                        d["obs"][a["edit"]["ob"]].pop("lang", None)
+                        tz = comp.to_tz(P_, lookup_tzid=False)
+                        res.probe("converted_again_after_edit")
             except Exception as e:
                 res.violate(f"C12/convert/{a['provider']}/raised:{type(e).__name__}", stepno, repr(e)[:300])
                 continue
